@@ -362,6 +362,28 @@ def check_not_memoised(run, rule, roots, what):
             run.ob(rule, f"{fi.fq}/not-memoised", not memo, f"{fi.module.rel}:{fi.lineno}", what,
                    f"decorated with @{ast.unparse(memo[0])}: the cached nodes are returned again for the same argument and mutated in place by the engine"
                    if memo else "", mech="decorator census over the functions reachable from the property's decoders")
+    # the functional spelling: ALIAS = lru_cache(...)(f) / ALIAS = cache(f) anywhere in a module, with ALIAS used by a reachable function
+    reach = set(reachable(edges, roots)) | set(roots)
+    for m in sorted(prog.modules.values(), key=lambda m: m.rel):
+        for st in ast.walk(m.tree):
+            if not (isinstance(st, ast.Assign) and len(st.targets) == 1 and isinstance(st.targets[0], ast.Name) and isinstance(st.value, ast.Call)):
+                continue
+            v = st.value
+            dec = v.func.func if isinstance(v.func, ast.Call) else v.func
+            if prog.dotted(m, dec) not in CACHE_DECORATORS or len(v.args) != 1 or not isinstance(v.args[0], (ast.Name, ast.Attribute)):
+                continue
+            c = prog.resolve_func_name(m, v.args[0].id, None) if isinstance(v.args[0], ast.Name) else None
+            target = getattr(c, "func", None)
+            if target is None or isinstance(target.node, ast.Lambda) or not may_return_nodes(prog, target):
+                continue
+            alias = st.targets[0].id
+            users = [g for g in reach if g.module is m and not isinstance(g.node, ast.Lambda)
+                     and any(isinstance(x, ast.Name) and x.id == alias and isinstance(x.ctx, ast.Load) for x in ast.walk(g.node))]
+            if users:
+                n += 1
+                run.ob(rule, f"{target.fq}/not-memoised", False, f"{m.rel}:{st.lineno}", what,
+                       f"`{alias} = {ast.unparse(v)}` wraps a node-returning function in a cache and {users[0].fq} uses it: the cached nodes are returned "
+                       "again for the same argument and mutated in place by the engine", mech="cache-wrapper census over the modules of the functions reachable from the property's decoders")
     return n
 
 
